@@ -48,6 +48,41 @@ pub fn register(l: &mut Vec<Obl>) {
             r.goal("z", b.z.close(v[2], 1e-5));
             r
         });
+    // the same CIE round trips for other white points (the white point is a configuration of every CIE space)
+    macro_rules! cie_rt_wp {
+        ($key:literal, $W:ty) => {{
+            let w = <$W as palette::white_point::WhitePoint<f64>>::get_xyz();
+            oblf!(l; concat!("c01_xyz_luv_xyz_", $key), "C01", Tier::Quick,
+                concat!("XYZ -> L*u*v* -> XYZ returns the colour within 1e-5 for every XYZ in [0, white] with Y >= 1e-3, white point ", $key),
+                ["<Luv<Wp,T> as FromColorUnclamped<Xyz<Wp,T>>>", "<Xyz<Wp,T> as FromColorUnclamped<Luv<Wp,T>>>"],
+                [var("x", 0.0, w.x), var("y", 0.001, 1.0), var("z", 0.0, w.z)];
+                |v| {
+                    let mut r = Res::<B>::new();
+                    let luv: Luv<$W, T> = Luv::from_color_unclamped(Xyz::<$W, T>::new(v[0], v[1], v[2]));
+                    let b: Xyz<$W, T> = Xyz::from_color_unclamped(luv);
+                    r.goal("x", b.x.close(v[0], 1e-5));
+                    r.goal("y", b.y.close(v[1], 1e-5));
+                    r.goal("z", b.z.close(v[2], 1e-5));
+                    r
+                });
+            obl!(l; concat!("c01_xyz_lab_xyz_", $key), "C01", Tier::Quick,
+                concat!("XYZ -> L*a*b* -> XYZ returns the colour within 1e-6 for every XYZ in [0, white], white point ", $key),
+                ["<Lab<Wp,T> as FromColorUnclamped<Xyz<Wp,T>>>", "<Xyz<Wp,T> as FromColorUnclamped<Lab<Wp,T>>>"],
+                [var("x", 0.0, w.x), var("y", 0.0, 1.0), var("z", 0.0, w.z)];
+                |v| {
+                    let mut r = Res::<B>::new();
+                    let lab: Lab<$W, T> = Lab::from_color_unclamped(Xyz::<$W, T>::new(v[0], v[1], v[2]));
+                    let b: Xyz<$W, T> = Xyz::from_color_unclamped(lab);
+                    r.goal("x", b.x.close(v[0], 1e-6));
+                    r.goal("y", b.y.close(v[1], 1e-6));
+                    r.goal("z", b.z.close(v[2], 1e-6));
+                    r
+                });
+        }};
+    }
+    cie_rt_wp!("d50", wp::D50);
+    cie_rt_wp!("a", wp::A);
+    cie_rt_wp!("e", wp::E);
     obl!(l; "c01_xyz_yxy_xyz", "C01", Tier::Quick,
         "XYZ -> xyY -> XYZ returns the colour within 1e-9 for XYZ in [0,1.1]^3 with Y >= 1e-3; xyY -> XYZ -> xyY likewise for y >= 0.01, Y >= 1e-3",
         ["<Yxy<Wp,T> as FromColorUnclamped<Xyz<Wp,T>>>", "<Xyz<Wp,T> as FromColorUnclamped<Yxy<Wp,T>>>"],
